@@ -8,6 +8,7 @@ import Sm9.Proofs.FqField
 import Sm9.Model.Api
 import Sm9.Proofs.LibScalar
 import Sm9.Proofs.FieldProgram
+import Sm9.Proofs.FieldProgram2
 /-!
 # C07 — Field elements always stay canonical; equality is value equality
 Limb level: `Canon m x := x < m`.  Every arithmetic step of the limb model maps canonical
@@ -61,8 +62,12 @@ Proved for **every** program `prog : List FInstr` (any length, any order), for F
 exactly 8 words (`next_u64` draws, limb 0 first; any word values); the exponent of `pow` is a
 register (as in `Fr::pow(self, exp: Fr)`), not a literal; `const v` stands for `from_slice` of the
 32-byte (64-byte if `v ≥ 2^256`) big-endian encoding of `v`; `str` takes the already UTF-8-decoded
-characters.  Field elements inside Fq2/Fq4/Fq12 and point coordinates are not registers of this
-machine (they are covered by the step theorems above and by C16 for points).
+characters.  **Fq2** has its own instance of the same machine (`Sm9/Proofs/FieldProgram2.lean`, theorems `fq2_program_*`
+below): registers are pairs of Montgomery limbs, the instructions are the ones the public `Fq2` API has
+(`slice` = the strict 64-byte decoder, `add sub mul neg dup`; `mul` is the interleaved `sum_of_products` exactly as
+`Fq2::mul_inplace` calls it); `sqrt` is not an instruction of it (its soundness is C14, on the value level).  Field elements
+inside Fq4/Fq12 and point coordinates are not registers of any of these machines (they are covered by the step theorems
+above and by C16 for points).
 -/
 set_option maxRecDepth 100000
 namespace Sm9.C07
@@ -242,6 +247,30 @@ theorem fq_program_observe (prog : List FInstr) (regs : List Nat) (h : FqProg.fr
         FProg.eqObs x y = decide (a = b) ∧ FProg.isZeroObs x = a.is_zero ∧
         FProg.toSliceObs paramsQ x = Api.fqToSlice a ∧ FProg.isEvenObs x = a.is_even :=
   FqProg.frun_observe prog regs h
+
+/-! ### Fq2: the same induction, on pairs of limbs -/
+/-- every program over Fq2 values: the limb machine runs whenever the value machine does; every register is canonical in both
+    coordinates and denotes the corresponding register of the value machine -/
+theorem fq2_program_refines (prog : List FInstr) (ds : List Fq2) (h : Fq2Prog.frunV prog = some ds) :
+    ∃ regs, Fq2Prog.frunL prog = some regs ∧ List.Forall₂ Fq2Prog.CanonRel2 regs ds := Fq2Prog.frun_refines prog ds h
+theorem fq2_program_fails_iff (prog : List FInstr) : Fq2Prog.frunL prog = none ↔ Fq2Prog.frunV prog = none :=
+  Fq2Prog.frun_fails_iff prog
+theorem fq2_program_fails_iff_wf (prog : List FInstr) : Fq2Prog.frunL prog = none ↔ ¬ Fq2Prog.WellFormed prog :=
+  Fq2Prog.frunL_fails_iff_wf prog
+theorem fq2_program_canonical (prog : List FInstr) (regs : List (Nat × Nat)) (h : Fq2Prog.frunL prog = some regs) :
+    ∀ x ∈ regs, x.1 < paramsQ.modulus ∧ x.2 < paramsQ.modulus := Fq2Prog.frun_canonical prog regs h
+/-- raw-limb equality of two registers is equality in Fq2; `is_zero` holds exactly for the value 0; the 64-byte encoding and
+    the parity are functions of the denoted element -/
+theorem fq2_observe_eq {x y : Nat × Nat} {a b : Fq2} (hx : Fq2Prog.CanonRel2 x a) (hy : Fq2Prog.CanonRel2 y b) :
+    x = y ↔ a = b := Fq2Prog.observe_eq hx hy
+theorem fq2_observe_is_zero_iff {x : Nat × Nat} {a : Fq2} (hx : Fq2Prog.CanonRel2 x a) :
+    Fq2Prog.isZeroObs2 x = true ↔ a = Fq2.zero := Fq2Prog.observe_is_zero_iff hx
+theorem fq2_observe_to_slice {x : Nat × Nat} {a : Fq2} (hx : Fq2Prog.CanonRel2 x a) :
+    Fq2Prog.toSliceObs2 x = Api.fq2ToSlice a := Fq2Prog.observe_to_slice hx
+theorem fq2_canon_unique {x y : Nat × Nat} {a : Fq2} (hx : Fq2Prog.CanonRel2 x a) (hy : Fq2Prog.CanonRel2 y a) : x = y :=
+  Fq2Prog.canonRel2_unique hx hy
+/-- non-vacuity: decode two elements, multiply -/
+example : Fq2Prog.WellFormed Fq2Prog.demo := by decide
 
 /-- non-vacuity: the D1 history (set bits 255 and 254 of one) followed by every kind of Fr operation,
     including `inverse` of zero; the limb-level machine runs and all registers are canonical -/
